@@ -47,7 +47,17 @@ pub extern "C" fn tsrun_fulfill_orders(
             let result = if resp.error.is_null() {
                 // Success case
                 if let Some(val) = resp.value.as_ref() {
-                    Ok(RuntimeValue::unguarded(val.value().clone()))
+                    // The response is stored until the script receives it, and the caller
+                    // may release its handle right after this call: objects need their own
+                    // guard or a collection in between recycles them.
+                    let value = val.value().clone();
+                    if let JsValue::Object(ref obj) = value {
+                        let guard = ctx.interp.heap.create_guard();
+                        guard.guard(obj.clone());
+                        Ok(RuntimeValue::with_guard(value, guard))
+                    } else {
+                        Ok(RuntimeValue::unguarded(value))
+                    }
                 } else {
                     Ok(RuntimeValue::unguarded(JsValue::Undefined))
                 }
